@@ -163,6 +163,22 @@ def routes_agree(h, labels=(3, 0, 4), r=3):
             Rt = T.geometric_representation(**_kw(h))
             for g in G1.ordered_gens:
                 h.eq(f"TriangleGroup[{g}]", Rt[g], reps[0][g])
+        if r == 3:
+            # a diagram whose edge list mentions the generators in a non-sorted order: relations are tied to the NAMES
+            m01, m02, m12 = labels
+            G5 = coxeter.CoxeterGroup(diagram=[('b', 'a', m01), ('b', 'c', m12), ('c', 'a', m02)])
+            R5 = G5.geometric_representation(**_kw(h))
+            I3 = _I(h, 3)
+            for (x, y, m) in (('a', 'b', m01), ('a', 'c', m02), ('b', 'c', m12)):
+                h.eq(f"unsorted diagram: label stored for ({x},{y})", np.array(G5.generators[x][y]), np.array(m))
+                ix, iy = G5.generator_index[x], G5.generator_index[y]
+                h.eq(f"unsorted diagram: coxeter_matrix entry for ({x},{y})", np.array(G5.coxeter_matrix[ix][iy]), np.array(m))
+                if m > 0:
+                    h.eq(f"unsorted diagram: ({x}{y})^{m} = 1", _pow(R5[x] @ R5[y], m, I3), I3, validate=False)
+                    for pr in _primes(m):
+                        c = _is_identity(h, _pow(R5[x] @ R5[y], m // pr, I3), I3)
+                        h.holds(f"unsorted diagram: ({x}{y}) has order exactly {m}: power {m // pr} is not the identity",
+                                ~c if h.is_sym() and not isinstance(c, (bool, np.bool_)) else (not c))
         G4, _ = _group(labels, r, 'matrix', 'alphanum')
         R4 = G4.geometric_representation(**_kw(h))
         for i, g in enumerate(G1.ordered_gens):
